@@ -113,6 +113,28 @@ def main():
                 want_idx = sorted(order.index(i - 1) for i in kept)           # positions of the kept sensors in the order given
                 exp_by_pos = {order.index(i - 1): w[k] for k, i in enumerate(kept)}
                 if sorted(gi) != want_idx or list(gi2) != list(gi):
+                    # a sensor exactly ON the boundary is neither "inside" nor "outside" it: the statement does not say whether it is retained
+                    # (today it is dropped).  If the retained set differs from the strictly-inside one by such sensors only, the weights are
+                    # judged against the definition for THAT retained set (the hull clipped by the bisectors of the retained sensors)
+                    from scipy.spatial import ConvexHull
+                    hull_ = np.asarray(bnd, dtype=float)[ConvexHull(np.asarray(bnd, dtype=float)).vertices]
+                    def on_edge(pt):
+                        for a_, b_ in zip(hull_, np.roll(hull_, -1, axis=0)):
+                            cr = (b_[0] - a_[0]) * (pt[1] - a_[1]) - (b_[1] - a_[1]) * (pt[0] - a_[0])
+                            if abs(cr) <= 1e-9 * max(1.0, np.abs(hull_).max()) ** 2 and min(a_[0], b_[0]) - 1e-9 <= pt[0] <= max(a_[0], b_[0]) + 1e-9 \
+                                    and min(a_[1], b_[1]) - 1e-9 <= pt[1] <= max(a_[1], b_[1]) + 1e-9:
+                                return True
+                        return False
+                    extra = sorted(set(int(i) for i in gi) - set(want_idx))
+                    if list(gi2) == list(gi) and set(want_idx) <= set(int(i) for i in gi) and extra and all(on_edge(np.asarray(coords, dtype=float)[i]) for i in extra):
+                        kept_coords = np.asarray(coords, dtype=float)[list(gi)]
+                        want_alt = nearest_sensor_fractions(kept_coords, hull_)
+                        if np.allclose(gw, want_alt, rtol=1e-7, atol=1e-9):
+                            run.ties += 1
+                        else:
+                            run.violation("voronoi:weights", f"sensors {sens} ({label}): sensors {extra} on the boundary are retained; weights {np.asarray(gw).tolist()} are not the "
+                                          f"nearest-sensor area fractions {want_alt.tolist()} of the retained set", rep)
+                        continue
                     run.violation("voronoi:indices", f"sensors {sens} ({label}): retained indices {list(gi)}, expected {want_idx}", rep)
                     continue
                 exp = np.array([exp_by_pos[i] for i in gi])
